@@ -68,6 +68,10 @@ func EncodeCMPPContentAndSplit(ctx context.Context, content string, msgFmt datac
 	contents [][]byte, actualMsgFmt datacoding.CMPPDataCoding, err error,
 ) {
 	actualMsgFmt = msgFmt
+	if !datacoding.IsValidCMPPDataCoding(msgFmt) {
+		// GetCMPPCodec falls back to UCS2 for an unsupported number: report what is actually used
+		actualMsgFmt = datacoding.CMPP_CODING_UCS2
+	}
 	var encodedData []byte
 	encoder := datacoding.GetCMPPCodec(msgFmt, content)
 	encodedData, err = encoder.Encode()
@@ -135,6 +139,10 @@ func EncodeSMPPContentAndSplit(ctx context.Context, content string, msgFmt datac
 		actualMsgFmt = datacoding.SMPP_CODING_UCS2
 	}
 
+	if !datacoding.IsValidSMPPDataCoding(actualMsgFmt) {
+		// GetSMPPCodec falls back to UCS2 for an unsupported number: report what is actually used
+		actualMsgFmt = datacoding.SMPP_CODING_UCS2
+	}
 	var encodedData []byte
 	encoder := datacoding.GetSMPPCodec(actualMsgFmt, content)
 	encodedData, err = encoder.Encode()
